@@ -138,7 +138,7 @@ func init() {
 			}
 			return []mon.Family{
 				{Name: "universe-rows", N: rows / step, Run: func(w *mon.W, idx int) { c09Row(w, idx*step) }},
-				{Name: "keyzoo", N: c.Pick(6000, 400000) / step, Run: c09KeyZoo},
+				{Name: "keyzoo", N: c.Pick(12000, 1500000) / step, Run: c09KeyZoo},
 			}
 		},
 	})
